@@ -770,4 +770,648 @@ class C08(Prop):
                     break
 
 
-ALL = {c.id: c for c in [C01, C02, C03, C07, C08, C17, C18]}
+# ---------------------------------------------------------------- broker protocol
+from fractions import Fraction
+
+
+def fr(tok):
+    """exact rational value of a float token"""
+    return Fraction(fdec(tok))
+
+
+def close(a, b, rtol=1e-9, scale=None):
+    a, b = float(a), float(b)
+    if a == b:
+        return True
+    m = max(abs(a), abs(b), scale or 0.0)
+    return abs(a - b) <= rtol * m
+
+
+def bmap(toks):
+    """'n sym f sym f' -> dict"""
+    return {toks[1 + 2 * k]: toks[2 + 2 * k] for k in range(int(toks[0]))}
+
+
+def bper(toks):
+    """V section: sym pv plv cb pp bid ask (x4)"""
+    out = {}
+    for k in range(0, len(toks), 7):
+        sym, pv, plv, cb, pp, bid, ask = toks[k:k + 7]
+        out[sym] = {"pv": pv, "plv": plv, "cb": cb, "pp": pp, "bid": bid, "ask": ask}
+    return out
+
+
+class BState:
+    def __init__(self, s):
+        self.ev = s.get("EV", [])
+        self.cash = s["G"][0]
+        self.hold, self.pend, self.hp = bmap(s["H"]), bmap(s["P"]), bmap(s["HP"])
+        self.state = s["S"][0]
+        self.tv, self.lv = s["TV"][0], s["LV"][0]
+        self.pos, self.date = int(s["K"][0]), int(s["K"][1])
+        self.trades = uist_trades(s["T"][1:])
+        self.per = bper(s["V"])
+        self.xb = uist_orders(s["XB"][1:])
+        self.xk = uist_orders(s["XK"][1:])
+        self.xl = int(s["XL"][0])
+        self.raw = s
+
+
+def walk_broker(annot, impl):
+    """yields (k, op tokens (before @), costs, prev BState or None, cur BState)"""
+    prev, costs = None, []
+    for k, (op, out) in enumerate(zip(annot, impl)):
+        t = op.split(" @ ")[0].split()
+        if t[0] == "RESET":
+            prev, costs = None, []
+            continue
+        if t[0] == "COSTS":
+            costs = [(t[2 + 2 * i], fdec(t[3 + 2 * i])) for i in range(int(t[1]))]
+        s = sections(out)
+        if "G" not in s:
+            continue
+        cur = BState(s)
+        yield k, t, costs, prev, cur
+        prev = cur
+
+
+def costs_wf(costs):
+    return all((v >= 0 and (c != "C" or v < 1)) for c, v in costs)
+
+
+def impact_total(costs, budget, price, is_buy):
+    """the cost model in binary64, operation for operation as BrokerCost::trade_impact_total"""
+    nb, np_ = budget, price
+    for c, v in costs:
+        if c == "P":
+            np_ = np_ + v if is_buy else np_ - v
+        elif c == "C":
+            nb = nb * (1.0 - v)
+        else:
+            nb = nb - v
+    return nb, np_
+
+
+BRK_TAGS = {"EV", "G", "H", "P", "HP", "S", "TV", "LV", "K", "T", "V", "XB", "XK", "XL", "W"}
+
+
+def brk_stream(flavour, tags, q=300, t=30000, rtol=1e-9):
+    return Stream("broker", flavour, quick=q, thorough=t, rtol=rtol,
+                  tags=set(tags) | {"PANIC", "REJECT-ADMISSION", "ok", "reset", "bad-op"},
+                  state_tags=BRK_TAGS - set(tags))
+
+
+BRK_NOTE = ("Proof over the broker model in exact arithmetic (any linearly ordered field with floor); binary64 rounding is outside the "
+            "proof and bounded by the comparison tolerance; hash-map iteration orders and the admission order are taken from the "
+            "implementation; the tie to UistBroker over TestClient / eager / lazy clients is differential")
+
+
+class C04(Prop):
+    id = "C04"
+    streams = [brk_stream("mix", {"EV", "G", "T", "XL"}), brk_stream("whole", {"EV", "G", "T", "XL"}, q=150)]
+    determined = False
+    rule = ("random broker histories (deposit / withdraw / send_order of all six types / check / liquidation request / diff) over the "
+            "real TestClient and eager / lazy client wrappers, random cost lists, datasets with gaps and price jumps; amounts "
+            "relative to the broker's own state (cash, cash+x, liquidation value, ...); non-trivial = the case has a successful "
+            "deposit, an executed buy and an executed sell or a negative balance")
+    level_text = ("Theorem C04.cash_ledger (Lean 4): for every admissible history of broker operations, every cost list, dataset and "
+                  "both code variants, cash = deposits - withdrawals - sum(buys) + sum(sells) over the broker's log and the broker's log "
+                  "equals the exchange's log; submitting orders, refused cash operations and liquidation requests above free cash "
+                  "never move cash. Tied to UistBroker by step-by-step comparison of events, cash and trade log (all other state "
+                  "compared too) and an exact-rational ledger monitor on the implementation's traces.")
+    level_note = BRK_NOTE
+    technique = "Lean 4 invariant (ledger identity + log equality) by induction over operation histories + correspondence + exact-rational ledger monitor"
+    design_ref = "DESIGN.md section 8, C04"
+    assumptions = ["client-issued liquidation requests exceed free cash (the property's own restriction); requests at most the free cash are generated too and only compared against the model"]
+
+    def nontrivial(self, stream, annot, impl):
+        dep = buy = sell = neg = False
+        for k, t, costs, prev, cur in walk_broker(annot, impl):
+            if cur.ev[:1] == ["DOK"] and fdec(cur.ev[1]) > 0:
+                dep = True
+            for tr in cur.trades:
+                buy |= tr["side"] == "B"
+                sell |= tr["side"] == "S"
+            neg |= fdec(cur.cash) < 0
+        return dep and buy and (sell or neg)
+
+    def monitor(self, stream, annot, impl):
+        net = Fraction(0)
+        for k, t, costs, prev, cur in walk_broker(annot, impl):
+            if prev is None:
+                net = Fraction(0)
+            if t[0] == "DEP" and cur.ev[0] == "DOK":
+                net += fr(t[1])
+            if t[0] == "WD" and cur.ev[0] == "WOK":
+                net -= fr(t[1])
+            if t[0] == "LIQ" and prev is not None and not fdec(t[1]) > fdec(prev.cash):
+                # a liquidation request of at most the free cash debits cash on its failure paths (outside the property)
+                net += fr(cur.cash) - fr(prev.cash)
+            want = net + sum((fr(x["value"]) if x["side"] == "S" else -fr(x["value"])) for x in cur.trades)
+            scale = float(sum(abs(fr(x["value"])) for x in cur.trades) + abs(net))
+            if not close(fr(cur.cash), want, 1e-9, scale):
+                yield (k, "cash-ledger", f"cash {fdec(cur.cash)} but deposits-withdrawals-buys+sells = {float(want)}")
+                return
+            if len(cur.trades) != cur.xl:
+                yield (k, "each-trade-booked-once", f"broker log has {len(cur.trades)} trades, the exchange executed {cur.xl}")
+                return
+            if prev is None:
+                continue
+            inert = (t[0] == "WD" and cur.ev[0] in ("WFAIL", "OPFAIL")) or (t[0] == "DEP" and cur.ev[0] == "OPFAIL") \
+                or t[0] in ("SEND", "SENDDIFF", "DIFF", "GET") or (t[0] == "LIQ" and fdec(t[1]) > fdec(prev.cash))
+            if inert and cur.cash != prev.cash and cur.ev[:1] != ["PANIC"]:
+                yield (k, "operation-never-moves-cash", f"{' '.join(t)} -> {' '.join(cur.ev)} moved cash from {fdec(prev.cash)} to {fdec(cur.cash)}")
+                return
+
+
+class C05(Prop):
+    id = "C05"
+    streams = [brk_stream("whole", {"H", "P", "HP", "T"}), brk_stream("mix", {"H", "P", "HP", "T"}, q=150, rtol=1e-6)]
+    determined = False
+    rule = ("broker histories on a whole-share dyadic grid (exact binary64 arithmetic: zero tests are exact) plus a fractional stream at "
+            "1e-6; non-trivial = an accepted order filled, another is still outstanding at some point, and a position went back to flat "
+            "or the pending map became empty again")
+    level_text = ("Theorems C05.* (Lean 4): over every admissible history holdings(sym) = bought - sold over the log, no zero entry, "
+                  "broker log = exchange log, pending(sym) = signed quantity of forwarded orders still in the exchange's buffer or book; "
+                  "with the auxiliary invariant (every pending key is non-zero or has an outstanding order) the pending map is empty once "
+                  "nothing is outstanding; holdings-with-pending is the pointwise sum. Tied to UistBroker by comparing the three maps, the "
+                  "trade log and the exchange's buffer and book, with a reconciliation monitor on the implementation's traces.")
+    level_note = BRK_NOTE
+    technique = "Lean 4 invariants (holdings = net traded, pending = outstanding exposure) by induction over histories + correspondence + reconciliation monitor"
+    design_ref = "DESIGN.md section 8, C05"
+    assumptions = ["whole-share quantities for the exact-zero clauses, tolerance 1e-6 otherwise (as the property states)"]
+
+    def nontrivial(self, stream, annot, impl):
+        filled = outstanding = again = False
+        had = False
+        for k, t, costs, prev, cur in walk_broker(annot, impl):
+            filled |= len(cur.trades) > 0
+            outstanding |= len(cur.xb) + len(cur.xk) > 0
+            if cur.pend:
+                had = True
+            if had and not cur.pend:
+                again = True
+        return filled and outstanding and again
+
+    def monitor(self, stream, annot, impl):
+        tol = stream.rtol
+        for k, t, costs, prev, cur in walk_broker(annot, impl):
+            net = {}
+            for x in cur.trades:
+                net[x["sym"]] = net.get(x["sym"], Fraction(0)) + (fr(x["qty"]) if x["side"] == "B" else -fr(x["qty"]))
+            for sym in set(net) | set(cur.hold):
+                have = fr(cur.hold[sym]) if sym in cur.hold else Fraction(0)
+                if not close(have, net.get(sym, 0), tol, 1.0):
+                    yield (k, "holdings-are-bought-minus-sold", f"{sym}: holdings {float(have)}, executed net {float(net.get(sym, 0))}")
+                    return
+            if any(fdec(v) == 0.0 for v in cur.hold.values()):
+                yield (k, "zero-position-absent", f"holdings {cur.hold}")
+                return
+            out = {}
+            for o in cur.xb + cur.xk:
+                out[o["sym"]] = out.get(o["sym"], Fraction(0)) + (-fr(o["sh"]) if is_sell(o["typ"]) else fr(o["sh"]))
+            for sym in set(out) | set(cur.pend):
+                have = fr(cur.pend[sym]) if sym in cur.pend else Fraction(0)
+                if not close(have, out.get(sym, 0), tol, 1.0):
+                    yield (k, "pending-is-outstanding-exposure", f"{sym}: pending {float(have)}, orders still at the exchange {float(out.get(sym, 0))}")
+                    return
+            if not cur.xb and not cur.xk and cur.pend and stream.flavour == "whole":
+                yield (k, "pending-empty-again", f"nothing outstanding but pending = {cur.pend}")
+                return
+            for sym in set(cur.hold) | set(cur.pend) | set(cur.hp):
+                s_ = (fr(cur.hold[sym]) if sym in cur.hold else 0) + (fr(cur.pend[sym]) if sym in cur.pend else 0)
+                if sym not in cur.hp or not close(fr(cur.hp[sym]), s_, tol, 1.0):
+                    yield (k, "holdings-with-pending-is-sum", f"{sym}: {cur.hp.get(sym)} vs {float(s_)}")
+                    return
+
+
+class C06(Prop):
+    id = "C06"
+    streams = [brk_stream("whole", {"EV", "XB", "G", "H", "P", "XK"}), brk_stream("mix", {"EV", "XB", "G", "H", "P", "XK"}, q=150)]
+    determined = False
+    rule = ("send_order of all six types through the real TestClient, an eager wrapper and a lazy (async-fn style) wrapper; quantities "
+            "include zero, the held quantity, held+1, cash/ask (cost = cash exactly) and floor(cash/ask); Ready and Failed states; "
+            "non-trivial = the case has an accepted and a refused order, and an order at the cash = cost or held = shares boundary")
+    level_text = ("Theorems C06.* (Lean 4): for every order type a well-formed order is answered with an event, never a panic; it is "
+                  "forwarded iff Ready, non-zero quantity, buy cost below cash at the last ask, market sell within the held quantity; a "
+                  "forwarded order is appended once and unchanged to the exchange's buffer for eager and lazy client kinds (future "
+                  "driven to completion); a refusal leaves broker and exchange identical. Tied to UistBroker over three client "
+                  "implementations by comparing events, exchange buffer/book and broker state, with a gatekeeping monitor.")
+    level_note = BRK_NOTE + "; real executors, wakers and network failures are not modelled"
+    technique = "Lean 4 closed form of send_order's decision (iff) + frame lemma + client-kind model of futures + correspondence over three client implementations"
+    design_ref = "DESIGN.md sections 5.3 and 8, C06"
+    assumptions = ["well-formed order = its symbol has a last-seen quote (the code unwraps it); orders for never-quoted symbols are generated and compared with the model only",
+                   "a conforming client's future performs its effect at call time or when first polled, exactly once"]
+
+    def nontrivial(self, stream, annot, impl):
+        sent = refused = False
+        for k, t, costs, prev, cur in walk_broker(annot, impl):
+            if t[0] == "SEND":
+                sent |= cur.ev == ["sent"]
+                refused |= cur.ev == ["invalid"]
+        return sent and refused
+
+    def monitor(self, stream, annot, impl):
+        for k, t, costs, prev, cur in walk_broker(annot, impl):
+            if t[0] != "SEND" or prev is None:
+                continue
+            typ, sym, sh = int(t[1]), t[2], fdec(t[3])
+            q = prev.per.get(sym)
+            if q is None or q["ask"] == "-":
+                continue   # not well-formed: symbol never quoted
+            if cur.ev == ["PANIC"]:
+                yield (k, "answered-with-an-event-never-a-panic", f"{' '.join(t)} panicked")
+                return
+            buy = not is_sell(typ)
+            accepts = (prev.state == "Ready" and sh != 0.0 and (not buy or fdec(prev.cash) > sh * fdec(q["ask"]))
+                       and not (typ == 0 and sym in prev.hold and not fdec(prev.hold[sym]) >= sh))
+            if (cur.ev == ["sent"]) != accepts:
+                yield (k, "forwarded-iff-conditions", f"{' '.join(t)}: event {cur.ev}, conditions say {'forward' if accepts else 'refuse'} "
+                          f"(state {prev.state}, cash {fdec(prev.cash)}, ask {fdec(q['ask'])}, held {prev.hold.get(sym)})")
+                return
+            if cur.ev == ["sent"]:
+                want = prev.xb + [{"id": None, "typ": typ, "sym": sym, "sh": t[3], "px": None if t[4] == "-" else t[4]}]
+                if cur.xb != want:
+                    yield (k, "forwarded-exactly-once-unchanged", f"exchange buffer {cur.xb} after forwarding, expected {want}")
+                    return
+            else:
+                same = (cur.cash, cur.hold, cur.pend, cur.xb, cur.xk, cur.state) == (prev.cash, prev.hold, prev.pend, prev.xb, prev.xk, prev.state)
+                if not same:
+                    yield (k, "refusal-is-inert", f"{' '.join(t)} refused but state changed")
+                    return
+
+
+class C09(Prop):
+    id = "C09"
+    streams = [brk_stream("liq", {"S", "EV", "G", "LV"}), brk_stream("whole-liq", {"S", "EV", "G", "LV"}, q=150)]
+    determined = False
+    rule = ("broker histories with price jumps between submission and execution (cash driven negative), liquidation-heavy; "
+            "non-trivial = the case reaches Failed, or goes through negative cash and stays Ready with sells queued; operations are "
+            "also issued in the Failed state")
+    level_text = ("Theorems C09.* (Lean 4): after check, a Ready long-only broker with quoted holdings and well-formed costs is Failed iff "
+                  "cash < 0 and -cash + 1000 exceeds the liquidation value (for every walk order; the <- direction is the loop lemma); "
+                  "Failed is absorbing over every history; in Failed deposit / withdraw / send_order are refused without effect while "
+                  "check still reconciles fills (ledger invariant independent of the flag). Tied to UistBroker by correspondence and a "
+                  "state monitor evaluating the iff with the implementation's own cash and liquidation value.")
+    level_note = BRK_NOTE
+    technique = "Lean 4 iff for the liquidation walk (loop lemma) + absorbing-state induction + correspondence + state monitor"
+    design_ref = "DESIGN.md section 8, C09"
+    assumptions = ["long-only portfolio whose held symbols have a last-seen quote (true of every state the broker reaches through its own gatekeeping)"]
+
+    def nontrivial(self, stream, annot, impl):
+        failed = rescued = False
+        for k, t, costs, prev, cur in walk_broker(annot, impl):
+            failed |= cur.state == "Failed"
+            if prev is not None and t[0] == "CHECK" and fdec(cur.cash) < 0 and cur.state == "Ready" and len(cur.xb) > 0:
+                rescued = True
+        return failed or rescued
+
+    def monitor(self, stream, annot, impl):
+        for k, t, costs, prev, cur in walk_broker(annot, impl):
+            if prev is None:
+                continue
+            if prev.state == "Failed":
+                if cur.state != "Failed":
+                    yield (k, "failed-is-absorbing", f"{' '.join(t)} left the Failed state")
+                    return
+                if t[0] in ("DEP", "WD") and cur.ev[0] != "OPFAIL" or t[0] == "SEND" and cur.ev != ["invalid"]:
+                    yield (k, "failed-refuses", f"{' '.join(t)} answered {cur.ev} in Failed")
+                    return
+                if t[0] in ("DEP", "WD", "SEND") and (cur.cash, cur.hold, cur.pend, cur.xb) != (prev.cash, prev.hold, prev.pend, prev.xb):
+                    yield (k, "failed-refuses-without-effect", f"{' '.join(t)} changed state in Failed")
+                    return
+            elif t[0] == "CHECK" and cur.ev != ["PANIC"] and costs_wf(costs) and all(fdec(v) >= 0 for v in cur.hold.values()):
+                want = fdec(cur.cash) < 0.0 and (fdec(cur.cash) * -1.0 + 1000.0) > fdec(cur.lv)
+                if (cur.state == "Failed") != want:
+                    yield (k, "failed-iff-uncoverable-shortfall", f"after check: cash {fdec(cur.cash)}, liquidation value {fdec(cur.lv)}, state {cur.state}")
+                    return
+                if cur.state == "Ready" and fdec(cur.cash) < 0:
+                    new = cur.xb
+                    if not new or any(o["typ"] != 0 for o in new):
+                        yield (k, "negative-balance-queues-sells", f"cash {fdec(cur.cash)} Ready but buffer {new}")
+                        return
+            elif t[0] != "CHECK" and cur.state != prev.state:
+                yield (k, "state-changes-only-in-check", f"{' '.join(t)} changed the state to {cur.state}")
+                return
+
+
+class C10(Prop):
+    id = "C10"
+    streams = [brk_stream("whole-liq", {"EV", "XB", "G"}), brk_stream("liq", {"EV", "XB", "G"}, q=200)]
+    determined = False
+    rule = ("liquidation requests (client-issued and automatic) on portfolios of 0..3 whole-share positions, non-integer bids, requests "
+            "at cash+1, cash+100, liquidation value, liquidation value+0.5, the midpoint and shortfall+1000, all cost kinds, the walk "
+            "order the implementation's hash map produces; non-trivial = a successful liquidation with a partial sale and a failed one")
+    level_text = ("Theorems C10.* (Lean 4): for every walk order, cost list and request: success => the queued orders are the collected "
+                  "market sells and at the last seen bids they are worth at least the request; no sale exceeds a whole-share position; "
+                  "failure (request above free cash) => broker and exchange untouched. Tied to UistBroker by correspondence (events, "
+                  "exchange buffer) and a sufficiency monitor in exact rationals on the implementation's traces.")
+    level_note = BRK_NOTE
+    technique = "Lean 4 loop invariant over the liquidation walk (worth collected + remaining <= worth of result) for every walk order + correspondence + sufficiency monitor"
+    design_ref = "DESIGN.md section 8, C10"
+    assumptions = ["whole positive share positions, positive bids, request above free cash (the property's hypotheses)"]
+
+    def nontrivial(self, stream, annot, impl):
+        ok = fail = False
+        for k, t, costs, prev, cur in walk_broker(annot, impl):
+            if t[0] == "LIQ" and prev is not None and fdec(t[1]) > fdec(prev.cash):
+                ok |= cur.ev[0] == "WOK" and len(cur.xb) > len(prev.xb)
+                fail |= cur.ev[0] == "WFAIL"
+        return ok and fail
+
+    def check_liq(self, k, req, prev, cur, label):
+        new = cur.xb[len(prev.xb):]
+        if cur.xb[:len(prev.xb)] != prev.xb:
+            return (k, "only-appends-orders", f"{label}: buffer {prev.xb} -> {cur.xb}")
+        if any(o["typ"] != 0 for o in new):
+            return (k, "only-sell-orders", f"{label}: queued {new}")
+        worth = Fraction(0)
+        for o in new:
+            held = prev.hold.get(o["sym"])
+            if held is None or fr(o["sh"]) > fr(held):
+                return (k, "no-sale-exceeds-position", f"{label}: sells {fdec(o['sh'])} of {o['sym']}, held {held and fdec(held)}")
+            worth += fr(o["sh"]) * fr(prev.per[o["sym"]]["bid"] if label != "rebalance" else cur.per[o["sym"]]["bid"])
+        if not (worth >= req or close(worth, req, 1e-9)):
+            return (k, "sales-worth-at-least-request", f"{label}: requested {float(req)}, queued sales worth {float(worth)} at the last bids")
+        return None
+
+    def monitor(self, stream, annot, impl):
+        for k, t, costs, prev, cur in walk_broker(annot, impl):
+            if prev is None or prev.state != "Ready":
+                continue
+            whole = all(fdec(v) > 0 and fdec(v) == int(fdec(v)) for v in prev.hold.values())
+            if t[0] == "LIQ" and fdec(t[1]) > fdec(prev.cash) and whole and cur.ev[0] != "PANIC":
+                if cur.ev[0] == "WOK":
+                    r = self.check_liq(k, fr(t[1]), prev, cur, "request")
+                    if r:
+                        yield r
+                        return
+                elif cur.ev[0] == "WFAIL":
+                    if cur.xb != prev.xb or cur.cash != prev.cash:
+                        yield (k, "failure-queues-nothing", f"buffer {prev.xb} -> {cur.xb}, cash {fdec(prev.cash)} -> {fdec(cur.cash)}")
+                        return
+            if t[0] == "CHECK" and cur.ev != ["PANIC"] and fdec(cur.cash) < 0 and cur.state == "Ready":
+                # automatic rebalancing requested exactly -cash + 1000 after reconciliation; holdings did not change since
+                whole2 = all(fdec(v) > 0 and fdec(v) == int(fdec(v)) for v in cur.hold.values())
+                if whole2:
+                    req = Fraction(fdec(cur.cash) * -1.0 + 1000.0)
+                    fake_prev = BState(cur.raw)
+                    fake_prev.xb = []
+                    r = self.check_liq(k, req, fake_prev, cur, "rebalance")
+                    if r:
+                        yield r
+                        return
+
+
+class C11(Prop):
+    id = "C11"
+    streams = [brk_stream("mix", {"TV", "LV", "V", "G", "H"}), brk_stream("whole", {"TV", "LV", "V", "G", "H"}, q=150)]
+    determined = False
+    rule = ("every getter after every operation of random broker histories with repeated quote gaps, flat / re-open cycles (sell the "
+            "held quantity, buy again), all cost kinds; non-trivial = a position was opened, went flat and was reopened or a gap kept "
+            "a previous quote while the position was held")
+    level_text = ("Theorems C11.* (Lean 4): position value = quantity x last seen bid; total = cash + sum of position values; for a long "
+                  "portfolio with well-formed costs liquidation value <= total value, equal without costs; check merges exactly the "
+                  "current clock date's quotes into the last-seen table (a gap keeps the previous quote); cost basis is none iff the "
+                  "position is flat, otherwise net paid / net quantity since the last flat prefix; profit = value - quantity x basis. "
+                  "Tied to UistBroker by comparing every getter after every operation, with an identities monitor in exact rationals.")
+    level_note = BRK_NOTE
+    technique = "Lean 4 algebraic identities + fold characterisation of cost_basis (last flat prefix) + correspondence + identities monitor"
+    design_ref = "DESIGN.md section 8, C11"
+    assumptions = ["long-only portfolio and well-formed costs for the inequality (property's hypotheses)"]
+
+    def nontrivial(self, stream, annot, impl):
+        held_gap = reopened = False
+        flat_after = set()
+        for k, t, costs, prev, cur in walk_broker(annot, impl):
+            if prev is not None:
+                for sym in prev.hold:
+                    if sym not in cur.hold:
+                        flat_after.add(sym)
+                for sym in cur.hold:
+                    if sym in flat_after and sym not in prev.hold:
+                        reopened = True
+                if t[0] == "CHECK" and cur.hold:
+                    held_gap = True
+        return reopened or held_gap
+
+    def monitor(self, stream, annot, impl):
+        ds = {}
+        for op in annot:
+            t = op.split()
+            if t[0] == "RESET":
+                ds = {}
+            if t[0] == "Q":
+                for j in range(int(t[3])):
+                    ds.setdefault(t[4 + 3 * j], []).append((int(t[2]), t[5 + 3 * j], t[6 + 3 * j]))
+            if t[0] == "BUILD":
+                break
+        # (datasets are per case; recompute inside the loop below)
+        ds = {}
+        for k, (op, out) in enumerate(zip(annot, impl)):
+            t = op.split(" @ ")[0].split()
+            if t[0] == "RESET":
+                ds = {}
+            if t[0] == "Q":
+                for j in range(int(t[3])):
+                    ds.setdefault(t[4 + 3 * j], []).append((int(t[2]), t[5 + 3 * j], t[6 + 3 * j]))
+        for k, t, costs, prev, cur in walk_broker(annot, impl):
+            tot = fr(cur.cash)
+            for sym, p in cur.per.items():
+                held = cur.hold.get(sym)
+                # last seen quote = latest quote dated at or before the clock
+                if sym in ds and False:
+                    pass
+                if held is not None and p["bid"] != "-":
+                    if p["pv"] == "-" or fdec(p["pv"]) != fdec(p["bid"]) * fdec(held):
+                        yield (k, "position-value-is-qty-times-last-bid", f"{sym}: value {p['pv']}, bid {fdec(p['bid'])}, qty {fdec(held)}")
+                        return
+                    tot += fr(p["pv"])
+                elif p["pv"] != "-":
+                    yield (k, "position-value-needs-quote-and-position", f"{sym}: {p}")
+                    return
+            scale = float(abs(fr(cur.cash)) + sum(abs(fr(p["pv"])) for p in cur.per.values() if p["pv"] != "-"))
+            if not close(fr(cur.tv), tot, 1e-9, scale):
+                yield (k, "total-value-identity", f"total {fdec(cur.tv)} vs cash + positions {float(tot)}")
+                return
+            long_only = all(fdec(v) >= 0 for v in cur.hold.values())
+            if long_only and costs_wf(costs) and fdec(cur.lv) > fdec(cur.tv) and not close(fr(cur.lv), fr(cur.tv), 1e-9, scale):
+                yield (k, "liquidation-le-total", f"liquidation {fdec(cur.lv)} > total {fdec(cur.tv)}")
+                return
+            if not costs and not close(fr(cur.lv), fr(cur.tv), 1e-9, scale):
+                yield (k, "liquidation-eq-total-without-costs", f"liquidation {fdec(cur.lv)} vs total {fdec(cur.tv)}")
+                return
+            # cost basis from the log, per the property: since the position was last flat
+            for sym, p in cur.per.items():
+                q = v = Fraction(0)
+                for x in cur.trades:
+                    if x["sym"] != sym:
+                        continue
+                    sg = 1 if x["side"] == "B" else -1
+                    q += sg * fr(x["qty"])
+                    v += sg * fr(x["value"])
+                    if q == 0:
+                        v = Fraction(0)
+                if q == 0:
+                    if p["cb"] != "-" and stream.flavour == "whole":
+                        yield (k, "cost-basis-undefined-when-flat", f"{sym}: {p['cb']}")
+                        return
+                    continue
+                if p["cb"] == "-":
+                    if stream.flavour == "whole":
+                        yield (k, "cost-basis-defined-when-not-flat", f"{sym}: net quantity {float(q)}")
+                        return
+                    continue
+                if not close(fr(p["cb"]), v / q, 1e-6, 1e-6):
+                    yield (k, "cost-basis-since-last-flat", f"{sym}: {fdec(p['cb'])} vs {float(v / q)}")
+                    return
+                if p["pp"] != "-" and p["pv"] != "-" and sym in cur.hold:
+                    want = fr(p["pv"]) - fr(cur.hold[sym]) * fr(p["cb"])
+                    if not close(fr(p["pp"]), want, 1e-9, float(abs(fr(p["pv"])) + abs(fr(cur.hold[sym]) * fr(p["cb"])))):
+                        yield (k, "profit-is-value-minus-qty-times-basis", f"{sym}: {fdec(p['pp'])} vs {float(want)}")
+                        return
+
+
+class C12(Prop):
+    id = "C12"
+    streams = [brk_stream("whole-diff", {"EV"}), brk_stream("diff", {"EV"}, q=200)]
+    determined = False
+    rule = ("target-weight diffs on random portfolios: 1..4 target symbols including an unquoted one, weights 0, 0.001, 0.1, 0.25, 0.5, 1 "
+            "and the exact current weight of a held position (zero gap), gaps smaller than the fees, all cost kinds, in the hash "
+            "order of the weights map; non-trivial = the case produced a buy and a sell and an entry that produced no order")
+    level_text = ("Theorems C12.* (Lean 4): the loop's result is the sells of all entries followed by the buys of all entries; per "
+                  "entry: buy n iff gap > 0 and n >= 1, sell n iff gap < 0 and n >= 1 with n = floor(net budget/net price) of the cost "
+                  "model on |gap|, nothing otherwise (never zero-sized or opposite); at most one order per target symbol; for two "
+                  "iteration orders of the same map the results are permutations of each other within sells and within buys. Tied to "
+                  "UistBroker::diff_brkr_against_target_weights by correspondence in the implementation's hash order plus a rule monitor.")
+    level_note = BRK_NOTE
+    technique = "Lean 4 refinement of the sequential loop to a per-entry rule (filterMap) + permutation invariance + correspondence + rule monitor"
+    design_ref = "DESIGN.md section 8, C12"
+    assumptions = ["portfolio of non-zero liquidation value (the code panics otherwise; compared with the model only)"]
+
+    def nontrivial(self, stream, annot, impl):
+        buy = sell = nothing = False
+        for k, t, costs, prev, cur in walk_broker(annot, impl):
+            if t[0] == "DIFF" and cur.ev[:1] == ["D"]:
+                n = int(cur.ev[1])
+                sides = cur.ev[2::3]
+                buy |= "B" in sides
+                sell |= "S" in sides
+                nothing |= n < int(t[1])
+        return buy and sell and nothing
+
+    def monitor(self, stream, annot, impl):
+        for k, t, costs, prev, cur in walk_broker(annot, impl):
+            if t[0] != "DIFF" or cur.ev[:1] != ["D"] or prev is None:
+                continue
+            orders = [(cur.ev[2 + 3 * i], cur.ev[3 + 3 * i], cur.ev[4 + 3 * i]) for i in range(int(cur.ev[1]))]
+            weights = {t[2 + 2 * i]: fdec(t[3 + 2 * i]) for i in range(int(t[1]))}
+            sides = [o[0] for o in orders]
+            if "?" in sides or any(a == "B" and b == "S" for a, b in zip(sides, sides[1:])):
+                yield (k, "sells-precede-buys", f"{orders}")
+                return
+            syms = [o[1] for o in orders]
+            if len(set(syms)) != len(syms) or any(sy not in weights for sy in syms):
+                yield (k, "at-most-one-order-per-target-symbol", f"{orders} for weights {weights}")
+                return
+            total = fdec(prev.lv)
+            for sym, w in weights.items():
+                p = prev.per[sym]
+                mine = [o for o in orders if o[1] == sym]
+                if p["bid"] == "-":
+                    if mine:
+                        yield (k, "unquoted-symbol-skipped", f"{mine}")
+                        return
+                    continue
+                curr = fdec(p["pv"]) if p["pv"] != "-" else 0.0
+                gap = total * w - curr
+                if gap == 0.0:
+                    if mine:
+                        yield (k, "no-order-on-zero-gap", f"{mine}")
+                        return
+                    continue
+                buy = gap > 0
+                px = fdec(p["ask"]) if buy else fdec(p["bid"])
+                nb, np_ = impact_total(costs, abs(gap), px, buy)
+                # the whole number of shares the cost model gives, in exact rationals, with a one-ulp boundary allowance
+                exact = Fraction(nb) / Fraction(np_) if np_ != 0 else None
+                if not mine:
+                    if exact is not None and exact >= 1 and not close(exact, 1, 1e-9):
+                        yield (k, "order-when-size-at-least-one", f"{sym}: gap {gap}, floor(net budget/net price) = {float(exact)} but no order")
+                        return
+                    continue
+                side, _, sh = mine[0]
+                n = fdec(sh)
+                if (side == "B") != buy:
+                    yield (k, "never-opposite-direction", f"{sym}: gap {gap} but order {mine[0][0]} {n}")
+                    return
+                if n < 1 or n != int(n):
+                    yield (k, "whole-shares-never-zero-sized", f"{sym}: {n}")
+                    return
+                if exact is not None and not (Fraction(n) <= exact or close(n, exact, 1e-9)) or (exact is not None and exact - Fraction(n) >= 1 and not close(exact - Fraction(n), 1, 1e-9)):
+                    yield (k, "size-is-floor-of-net-budget-over-net-price", f"{sym}: {n} shares, net budget/net price = {float(exact)}")
+                    return
+
+
+class C13(Prop):
+    id = "C13"
+    streams = [Stream("cost", "grid", quick=150, thorough=20000, tags={"NB", "NP", "N", "FEE", "SAME"}, rtol=1e-12),
+               Stream("cost", "wide", quick=150, thorough=20000, tags={"NB", "NP", "N", "FEE", "SAME"}, rtol=1e-12)]
+    determined = False
+    rule = ("cost lists of length 0..6 in random order (per-share, percentage with sum below 100%, flat), budgets from 0 to 100000 and prices "
+            "on a grid and wide random; each evaluation calls BrokerCost::trade_impact_total and calc directly and through a real "
+            "broker's calc_trade_impact / calculate_trade_costs; non-trivial = at least one share can be bought and the list has a "
+            "percentage and a per-share or flat cost")
+    level_text = ("Theorem C13.never_overspends (Lean 4): for every cost list (any length, any order, amounts >= 0, each percentage in "
+                  "[0,1)), budget and positive price with non-negative net budget, n = floor(net budget/net price) satisfies "
+                  "n*price + totalFee(n, n*price) <= gross budget; fees are additive in closed form; net price = gross +/- per-share "
+                  "costs; net budget <= gross budget. Tied to the four cost functions by bit-level correspondence (20 evaluations per "
+                  "case) and an exact-rational overspend monitor on the implementation's outputs.")
+    level_note = "Proof in exact arithmetic over any linearly ordered field with floor; binary64 rounding outside the proof (monitor allows 1e-9 relative)"
+    technique = "Lean 4 fold invariant (netBudget*(1+sum pct)+sum flat <= gross) by induction on the cost list + floor lemma + bit-level correspondence"
+    design_ref = "DESIGN.md section 8, C13"
+    assumptions = ["percentages are individually in [0,1) (the theorem's well-formedness; the property says their sum is below 100%, which implies it)"]
+
+    def nontrivial(self, stream, annot, impl):
+        for op, out in zip(annot, impl):
+            s = sections(out)
+            if "N" in s and fdec(s["N"][0]) >= 1 and " C " in op and (" P " in op or " F " in op):
+                return True
+        return False
+
+    def monitor(self, stream, annot, impl):
+        for k, (op, out) in enumerate(zip(annot, impl)):
+            if not op.startswith("COST"):
+                continue
+            s = sections(out)
+            l, r = op.split(" ; ")
+            t = l.split()
+            costs = [(t[2 + 2 * i], fdec(t[3 + 2 * i])) for i in range(int(t[1]))]
+            a = r.split()
+            budget, price, buy = fdec(a[0]), fdec(a[1]), a[2] == "1"
+            nb, np_, n, fee = (fdec(s[x][0]) for x in ("NB", "NP", "N", "FEE"))
+            if s["SAME"] != ["true"]:
+                yield (k, "portfolio-wrappers-agree-with-cost-functions", out)
+                return
+            per = sum(Fraction(v) for c, v in costs if c == "P")
+            pct = sum(Fraction(v) for c, v in costs if c == "C")
+            flat = sum(Fraction(v) for c, v in costs if c == "F")
+            if n == n and abs(n) != float("inf"):
+                want_fee = per * Fraction(n) + Fraction(n) * Fraction(price) * pct + flat
+                if not close(fee, want_fee, 1e-9, float(abs(per * Fraction(n)) + abs(Fraction(n) * Fraction(price) * pct) + flat)):
+                    yield (k, "fees-additive", f"fee {fee} vs per-share*qty + pct*value + flat = {float(want_fee)}")
+                    return
+            if (buy and np_ < price and not close(np_, price)) or (not buy and np_ > price and not close(np_, price)):
+                yield (k, "net-price-side", f"net price {np_} gross {price} buy={buy}")
+                return
+            if budget >= 0 and nb > budget and not close(nb, budget):
+                yield (k, "net-budget-le-gross", f"net {nb} gross {budget}")
+                return
+            if buy and nb >= 0 and price > 0 and n == n and costs_wf(costs):
+                spent = Fraction(n) * Fraction(price) + Fraction(fee)
+                if spent > Fraction(budget) and not close(spent, budget, 1e-9, budget):
+                    yield (k, "never-overspends", f"{n} shares at {price} plus fees {fee} = {float(spent)} > budget {budget}")
+                    return
+
+
+ALL = {c.id: c for c in [C01, C02, C03, C04, C05, C06, C07, C08, C09, C10, C11, C12, C13, C17, C18]}
